@@ -228,6 +228,16 @@ func runPoolCase(c *checkCtx, cs poolCase) (res poolResult) {
 		res.inconcl = "session manager: " + err.Error()
 		return
 	}
+	if cs.Idx%3 == 1 {
+		// a pool late in its life (the pool object and its counters survive session rebuilds): see poolRingHistory
+		for _, p := range sm.pools {
+			p.Lock()
+			if p.head == p.tail {
+				p.head, p.tail = 1<<32-3, 1<<32-3
+			}
+			p.Unlock()
+		}
+	}
 	defer func() {
 		sm.Close()
 		fenceN(2)
@@ -686,7 +696,7 @@ func genPoolCase(c *checkCtx, idx int) poolCase {
 	rng := caseRand(c.seed, 300000+idx)
 	cs := poolCase{Idx: idx}
 	cs.Sessions = 1 + rng.Intn(3)
-	cs.PoolCap = []int{0, 1, 4, 4096}[rng.Intn(4)]
+	cs.PoolCap = []int{0, 1, 4, 4096, 3, 5, 7, 6}[rng.Intn(8)]
 	cs.Callers = []int{2, 4, 8, 16, 32}[rng.Intn(5)]
 	cs.Phases = 3
 	cs.OpsPhase = c.pick(60, 150)
@@ -703,6 +713,14 @@ func poolRingHistory(c *checkCtx, idx int) (verdict string, info string, nops in
 	capN := 1 + rng.Intn(3)
 	workers := 2 + rng.Intn(3)
 	p := newStreamPool(uint32(capN))
+	if idx%2 == 1 {
+		// the ring's counters only ever grow: an empty ring with head == tail == X is the state after X put-backs; start some
+		// histories late in the pool's life, around the points where a narrower index type would wrap
+		capN = []int{1, 2, 3, 5, 6, 7}[rng.Intn(6)]
+		p = newStreamPool(uint32(capN))
+		base := []uint64{1<<32 - 1, 1<<32 - 2, 1<<32 - uint64(capN), 1<<31 - 1, 1<<16 - 1, 1<<33 - 3}[rng.Intn(6)]
+		p.head, p.tail = base, base
+	}
 	var clock int64
 	var mu sync.Mutex
 	var ops []porcupine.Operation
@@ -788,7 +806,7 @@ func porcupineOps(ops []porcupine.Operation, capacity int) (string, string) {
 }
 
 func checkPool(c *checkCtx) {
-	c.rule = "cases = (1..3 sessions, pool capacity 0/1/4/4096, 2..32 callers, chaos kind none/server-close/fallback/kill-session/all, file/memfd) from " +
+	c.rule = "cases = (1..3 sessions, pool capacity 0/1/3/4/5/6/7/4096 (a third of the pools start with their ring counters just below 2^32), 2..32 callers, chaos kind none/server-close/fallback/kill-session/all, file/memfd) from " +
 		"PRNG(VERIF_SEED, index); each execution alternates chaos phases (exclusivity + id echo judged) and quiesced phases (clean/live stream, " +
 		"accounting active == pooled + held); non-trivial = the execution reused pooled streams AND hit at least one hostile event (server-side close, " +
 		"part-read or unflushed put-back, fallback, session kill); distinct = distinct (sessions, pool cap, callers, chaos, bucketed event counts); " +
